@@ -347,7 +347,9 @@ Definition spec_cfg_tok (s : sstate) : tok := TCfg (map (fun i => fs_sid (st c i
    the engines are known to deviate from Appendix D is present in this microstep.
    1: two transitions whose event matches and whose condition holds have sources in ancestor relation
    2: two such transitions have the same source
-   4: a final state is entered (or active) below a <parallel> that is more than two levels up *)
+   4: a final state is entered (or active) below a <parallel> that is more than two levels up
+   8: (static) a deep history's parent has a proper descendant that owns a history of its own: the
+      engines keep all history values in one bit array, so the two histories share bits *)
 Definition all_enabled (cfg : list nat) (ev : option event) (x : xstate) : list nat :=
   filter (fun ti =>
             let t := tr c ti in
@@ -369,7 +371,16 @@ Definition diag (cfg : list nat) (ev : option event) (x : xstate) : N :=
                               existsb (fun a => is_parallel_state a)
                                       (match ancs i None with _ :: _ :: r => r | _ => [] end))
                     (seq 0 n) in
-  ((if ap then 1 else 0) + (if ss then 2 else 0) + (if dd then 4 else 0))%N.
+  let ho := existsb (fun h1 => match sty h1, fs_parent (st c h1) with
+                               | FHistDeep, Some p1 =>
+                                 existsb (fun h2 => is_history_state h2 &&
+                                                    match fs_parent (st c h2) with
+                                                    | Some p2 => is_descendant p2 p1
+                                                    | None => false
+                                                    end) (seq 0 n)
+                               | _, _ => false
+                               end) (seq 0 n) in
+  ((if ap then 1 else 0) + (if ss then 2 else 0) + (if dd then 4 else 0) + (if ho then 8 else 0))%N.
 
 Definition spec_microstep_d (d : N) (ts : list nat) (s : sstate) (x : xstate) : sstate * xstate :=
   let x0 := emit (TDiag d) (emit TMsB x) in
